@@ -30,6 +30,7 @@ type mdoc struct {
 	N2 []int `json:"n2"`
 	K1 []int `json:"k1"`
 	T1 []int `json:"t1"`
+	N3 []int `json:"n3"` // only ever used by nested metrics of the range aggregations
 }
 
 func nn(x []int) []int {
@@ -92,7 +93,12 @@ func main() {
 					d.D["t1"] = []int{x}
 					m.T1 = []int{x}
 				}
-				m.N1, m.N2, m.K1, m.T1 = nn(m.N1), nn(m.N2), nn(m.K1), nn(m.T1)
+				if r.Intn(5) > 0 {
+					x := 1 + r.Intn(4)
+					d.N["n3"] = []int{x}
+					m.N3 = []int{x}
+				}
+				m.N1, m.N2, m.K1, m.T1, m.N3 = nn(m.N1), nn(m.N2), nn(m.K1), nn(m.T1), nn(m.N3)
 				docs[d.ID] = m
 			}
 		}
@@ -231,6 +237,7 @@ func main() {
 				for i, bk := range b.Buckets("ranges") {
 					mx := bk.Metric("max1")
 					e := map[string]any{"lo": bounds[i][0], "hi": bounds[i][1], "count": int(bk.Metric("count")), "sum2": int(math.Round(bk.Metric("sum2"))),
+						"sum3": int(math.Round(bk.Metric("sum3"))),
 						"max1none": math.IsInf(mx, 0), "max1": 0}
 					if !math.IsInf(mx, 0) {
 						e["max1"] = int(mx)
@@ -240,7 +247,7 @@ func main() {
 				a["ranges"] = rb
 				db := []map[string]any{}
 				for i, bk := range b.Buckets("dranges") {
-					db = append(db, map[string]any{"lo": dbounds[i][0], "hi": dbounds[i][1], "count": int(bk.Metric("count"))})
+					db = append(db, map[string]any{"lo": dbounds[i][0], "hi": dbounds[i][1], "count": int(bk.Metric("count")), "sum3": int(math.Round(bk.Metric("sum3")))})
 				}
 				a["dranges"] = db
 				e["aggs"] = a
@@ -275,10 +282,12 @@ func addAggs(add func(string, search.Aggregation), tsize int, bounds, dbounds []
 	}
 	ra.AddAggregation("sum2", aggregations.Sum(n2))
 	ra.AddAggregation("max1", aggregations.Max(n1))
+	ra.AddAggregation("sum3", aggregations.Sum(search.Field("n3")))
 	add("ranges", ra)
 	da := aggregations.DateRanges(search.Field("t1"))
 	for _, b := range dbounds {
 		da.AddRange(aggregations.NewDateRange(sq.Epoch.Add(time.Duration(b[0])*time.Second), sq.Epoch.Add(time.Duration(b[1])*time.Second)))
 	}
+	da.AddAggregation("sum3", aggregations.Sum(search.Field("n3")))
 	add("dranges", da)
 }
